@@ -13,7 +13,8 @@ Coverage: clause of the property -> stream (kind) that reaches it
                                              constraints / unused, hard + soft (linear, quadratic) constraints, discrete marks
                                              in every API-reachable combination with the one-hot shape, constant-only
                                              constraints, constraint labels with '/', compress, check_header on/off;
-                                             Coq: CExpr per member, CVarinfo, CLabels
+                                             Coq: CExpr per member, CVarinfo, CLabels, CCqm2 (whole archive: names, order, optional
+                                             members, reader model), CCqm2H (the header with its seven counts)
        bundled version 2.0 files             corpus legacy_all: members decoded by the Coq codec (CExprDec: written by an older
                                              release whose QUAD length field was 4 bytes), CVarinfo, CLabels
        format versions 1.0-1.3 (_from_file_legacy)
@@ -25,6 +26,13 @@ Coverage: clause of the property -> stream (kind) that reaches it
                                              every variable, QM or BQM (v1/v2, float32) lhs members, weight/penalty, deflate),
                                              expected state from the description incl. variable ORDER, + CLegacy;
                                              kind widen: the float32 -> float64 widening of the Coq model against NumPy
+  DQM  index dtype of the payload            kind dqm / dqm_hand with "wide": 2-4 variables whose TOTAL number of cases sits on either
+                                             side of 2**16 (uint16 -> uint32 in to_numpy_vectors), biases and interactions on the
+                                             last cases, a variable starting beyond 2**16; corpus dqm_wide_*; corpus dqm_dense:
+                                             < 2**16 cases but >= 2**16 case interactions.  (BQM / QM / expression writers use a
+                                             fixed int32 index type and 4/8-byte length fields: no data-dependent dtype there)
+  DQM  data section, member level            every dqm / dqm_hand case: the .npy members decoded by the Coq model (CDqm; CNpyInts for
+                                             the integer members of wide models) against the vectors of the saved / loaded model
   DQM  format version 1.1                    kind dqm: compress, deprecated `compressed=` alias, ignore_labels; caselabel
                                              (CaseLabelDQM: to_file must refuse without ignore_labels); dqm_big (> 64 KiB labels)
        format versions 1.0 / 1.1, any index dtype
@@ -103,6 +111,12 @@ def gen_case(rng, tier):
         c["compress"] = rng.random() < 0.4
         c["ignore_labels"] = rng.random() < 0.3
         c["compressed_kw"] = rng.choice([None, None, None, True, False])      # deprecated alias of compress
+        if rng.random() < 0.12:
+            # WIDE: few variables, total number of cases on either side of an index-dtype threshold of the payload writer
+            # (cyDiscreteQuadraticModel.to_numpy_vectors: uint16 below 2**16 cases, uint32 from there on), linear biases and
+            # interactions on the LAST cases, a variable that STARTS beyond the threshold
+            c["dqm"] = wide_dqm_desc(rng)
+            c["wide"] = True
         if rng.random() < 0.3:
             # the same description written BY HAND (no dimod) as a format-version 1.0 / 1.1 file
             c["kind"] = 'dqm_hand'
@@ -123,6 +137,81 @@ def gen_case(rng, tier):
         c["off"] = str(rng.dyadic(8, 2))
         c["compress"] = rng.random() < 0.4
     return c
+
+
+def wide_dqm_desc(rng, total=None, nvars=None):
+    total = total or rng.choice([65535, 65536, 65537, 65600, 70000, 2 ** 16 + 2 ** 15, 2 ** 17 + 1])
+    nvars = nvars or rng.choice([2, 3, 3, 4])
+    cuts = sorted(rng.sample(range(1, total), nvars - 1))
+    if nvars >= 3 and rng.random() < 0.7 and total > 65540:
+        cuts[-1] = rng.randint(65536, total - 1)          # the last variable starts at a case index >= 2**16
+        cuts = sorted(set(cuts))
+    ks = [b - a for a, b in zip([0] + cuts, cuts + [total])]
+    labels = G.pick_labels(rng, len(ks), wild_p=0.0, range_p=0.5)
+    vars_ = [[enc_label(l), k] for l, k in zip(labels, ks)]
+    def some_cases(k):
+        return sorted({0, k - 1, rng.randrange(k), max(0, k - 2)})
+    lin = [[v[0], a, str(rng.dyadic(8, 2))] for v in vars_ for a in some_cases(v[1])]
+    quad = []
+    for i in range(len(vars_)):
+        for j in range(i + 1, len(vars_)):
+            if j == len(vars_) - 1 or rng.random() < 0.5:
+                for a in some_cases(vars_[i][1])[-2:]:
+                    for b in some_cases(vars_[j][1])[-2:]:
+                        quad.append([vars_[i][0], a, vars_[j][0], b, str(rng.dyadic(8, 2) or 1)])
+    return {"vars": vars_, "lin": lin, "quad": quad, "off": str(rng.dyadic(8, 2))}
+
+
+def run_dqm_dense(c):
+    """few cases, MANY interactions (k1 x k2 >= 2**16 case interactions between two variables, < 2**16 cases): the other
+    quantity an index dtype could wrongly be chosen from"""
+    m = dimod.DiscreteQuadraticModel()
+    u = m.add_variable(c["k1"], label='u')
+    v = m.add_variable(c["k2"], label='v')
+    a = np.arange(c["k1"]).reshape(-1, 1)
+    b = np.arange(c["k2"]).reshape(1, -1)
+    m.set_quadratic(u, v, (((7 * a + 3 * b) % 5) - 2) / 2.0 + 0.25)
+    m.set_linear_case(v, c["k2"] - 1, 1.5)
+    s0 = state_of(m)
+    fails = []
+    for compress in (False, True):
+        data = m.to_file(compress=compress).read()
+        try:
+            d = diff_state(s0, state_of(load_as('dqm', data, c.get("how", 'bytes'))))
+            if d:
+                fails.append(f"round trip (compress={compress}) changed the model: {d}")
+        except Exception as e:
+            fails.append(f"from_file raised {type(e).__name__}: {e}")
+    return {"coq": None, "py_fail": "; ".join(fails) if fails else None,
+            "features": {"kind": "dqm_dense", "interactions_over_64k": m.num_case_interactions() >= 2 ** 16}, "nontrivial": True,
+            "observed": {"case_interactions": int(m.num_case_interactions()), "cases": int(m.num_cases())}}
+
+
+def dqm_member_terms(m, data, fails, with_offset=True):
+    """member level of a DQM file: the .npy members of its data section decoded by the Coq model (Model/Npy.v) must be
+    the vectors of model `m` (case starts, linear biases, case interactions, offset).  Models with many cases: only the
+    integer members (case_starts, row and column indices) are rendered."""
+    try:
+        mem = G.npz_members(data)
+        if int(m.num_cases()) <= 2000 and int(m.num_case_interactions()) <= 300:
+            return f"(CDqm {G.npz_archive_term(mem)} {G.dqmvec_term(m, with_offset)})", []
+        if int(m.num_case_interactions()) > 300:
+            return None, []
+        starts, _, quad = G.dqm_vectors(m)
+        # the file lists the interactions in its own order: compare as multisets through sorting by (row, col)
+        rows = np.load(__import__('io').BytesIO(mem['quadratic_row_indices.npy']))
+        cols = np.load(__import__('io').BytesIO(mem['quadratic_col_indices.npy']))
+        order = sorted(range(len(rows)), key=lambda i: (int(rows[i]), int(cols[i])))
+        if [(int(rows[i]), int(cols[i])) for i in order] != sorted((r, c) for r, c, _ in quad):
+            fails.append("the (row, col) pairs stored in the file are not the case interactions of the model")
+        file_order = {(r, c): None for r, c, _ in quad}
+        terms = [f"(CNpyInts {cbytes(mem['case_starts.npy'])} {clist([G.cN(x) for x in starts])})",
+                 f"(CNpyInts {cbytes(mem['quadratic_row_indices.npy'])} {clist([G.cN(int(x)) for x in rows])})",
+                 f"(CNpyInts {cbytes(mem['quadratic_col_indices.npy'])} {clist([G.cN(int(x)) for x in cols])})"]
+        return terms[0], terms[1:]
+    except Exception:
+        fails.append("could not take the data section apart: " + traceback.format_exc()[-400:])
+        return None, []
 
 
 def legacy_files():
@@ -265,6 +354,8 @@ def run_case(c):
         return run_dqm_big(c)
     if kind == 'legacy_synth':
         return run_legacy_synth(c)
+    if kind == 'dqm_dense':
+        return run_dqm_dense(c)
     if kind == 'widen':
         pairs = []
         for x in c["bits"]:
@@ -350,6 +441,8 @@ def run_case(c):
             if G.cqm_all_modelled(m):
                 # the whole archive: member names, optional members, their order, and the reader model on it
                 terms.append(f"(CCqm2 {G.archive_term(data)} {G.c2model_term(m)})")
+                # ... and the header in front of it: the seven counts recomputed by the model from the saved record
+                terms.append(f"(CCqm2H {G.c2model_term(m)} {cbytes(data[:G.cqm_header_len(data)])})")
             coq, extra = terms[0], terms[1:]
         except Exception:
             fails.append("could not take the zip apart: " + traceback.format_exc()[-600:])
@@ -369,13 +462,17 @@ def run_case(c):
         if d:
             fails.append("the built DQM differs from its description: " + d)
         rt('dqm', m, exp, data)
-        feats.update(compress=c["compress"], ignore_labels=c["ignore_labels"])
-        observed = {"len": len(data)}
+        coq, extra = dqm_member_terms(m, data, fails)
+        feats.update(compress=c["compress"], ignore_labels=c["ignore_labels"], wide=bool(c.get("wide")),
+                     cases_over_64k=int(m.num_cases()) >= 2 ** 16)
+        observed = {"len": len(data), "cases": int(m.num_cases())}
         nontrivial = m.num_variables() > 0
     elif kind == 'dqm_hand':
         data, exp = G.dqm_bytes_by_hand(c["dqm"], c["minor"], c["compress"], index_dtype=getattr(np, c["index_dtype"]))
         m2 = rt('dqm', None, exp, data)
-        feats.update(minor=c["minor"], compress=c["compress"])
+        if m2 is not None:
+            coq, extra = dqm_member_terms(m2, data, fails, with_offset=c["minor"] >= 1)
+        feats.update(minor=c["minor"], compress=c["compress"], wide=bool(c.get("wide")))
         if m2 is not None:
             again = load_as('dqm', m2.to_file().read(), 'bytes')
             d = diff_state(exp, state_of(again))
